@@ -621,6 +621,19 @@ func (c15) Run(plan interface{}, schedSeed uint64, replay []simrt.Choice, lenien
 				if string(got) != string(written) {
 					fail("wrong-bytes", "written bytes do not read back", "wrote %d bytes, read back differs (err %v): got %x want %x", len(written), err, clipBytes(got), clipBytes(written))
 				}
+				// and a read beyond what was written reports not-enough-bytes (it does not hand out the unused rest of
+				// the last packet)
+				if len(viol) == 0 && len(written) > 0 {
+					q.SetPosition(0, 0)
+					k := 1 + len(written)%3
+					more, err2 := q.Bytes(len(written) + k)
+					if err2 == nil {
+						fail("read-beyond-written", "send side: a read beyond the written bytes succeeded", "wrote %d bytes (last packet holds %d of %d), Bytes(%d) returned %d bytes and no error: the tail is % x", len(written), fill, caps[len(caps)-1], len(written)+k, len(more), clipBytes(more[len(written):]))
+					} else if !errors.Is(err2, tds.ErrNotEnoughBytes) {
+						fail("wrong-error", "read beyond the end: wrong error: send side", "Bytes(%d) with %d bytes written: error %v", len(written)+k, len(written), err2)
+					}
+					v.Probe("read-beyond-the-written-bytes")
+				}
 			}
 			if err != nil {
 				fail("write-error", "write returned an error", "op %s: %v", o.Op, err)
